@@ -37,6 +37,12 @@ def euler_pair(rng, g, kind):
         return (L[0], float(rng.uniform(-1, 1) * cl), L[2]), (R[0], float(rng.uniform(-1, 1) * cr), R[2])
     if kind == 6:      # contact (equal u, p)
         L = euler_state(rng, g); return L, (L[0] * loguni(rng, 1e-3, 1e3), L[1], L[2])
+    if kind == 7 and rng.random() < 0.5:
+        # supersonic in one direction with a strong density ratio and a total-enthalpy jump (Roe-average sensitive)
+        sgn = float(rng.choice([-1.0, 1.0]))
+        L = (loguni(rng, 1e-2, 1e2), 0.0, loguni(rng, 0.1, 10)); R = (L[0] * loguni(rng, 1e-3, 1e3), 0.0, L[2] * loguni(rng, 0.2, 5))
+        cl = np.sqrt(g * L[2] / L[0]); cr = np.sqrt(g * R[2] / R[0])
+        return (L[0], float(sgn * rng.uniform(1.5, 4) * max(cl, cr)), L[2]), (R[0], float(sgn * rng.uniform(1.5, 4) * max(cl, cr)), R[2])
     L = euler_state(rng, g); R = euler_state(rng, g)
     return L, R
 
